@@ -327,16 +327,15 @@ func (m *MemMapFs) Rename(oldname, newname string) error {
 	oldname = normalizePath(oldname)
 	newname = normalizePath(newname)
 
-	if oldname == newname {
-		return nil
-	}
-
 	// Look the source up and move it in one critical section: releasing the read lock
 	// before taking the write lock let a concurrent Remove or Rename take the entry away
 	// in between, and the error returns left the mutex in the wrong state.
 	m.mu.Lock()
 	defer m.mu.Unlock()
 	if _, ok := m.getData()[oldname]; ok {
+		if oldname == newname {
+			return nil
+		}
 		err := m.unRegisterWithParent(oldname)
 		if err != nil {
 			return err
